@@ -79,7 +79,7 @@ def run_case(case):
     ping = bool(case.get("ping")) and variant != "core"
     props = {YowIqProtocolLayer.PROP_PING_INTERVAL: 1 if ping else 0}
     rig = TR.Rig(choices=case.get("choices", ()), upper=upper_layers(variant), props=props,
-                 trace_lines=bool(case.get("trace_lines")))
+                 trace_lines=bool(case.get("trace_lines")), preempt=case.get("preempt"))
     try:
         return _run(case, out, rig, variant, ping)
     finally:
@@ -223,7 +223,7 @@ def case_strategy(tier):
 
     @st.composite
     def build(draw):
-        n = draw(st.sampled_from([0, 20, 120, 400]))
+        n = draw(st.sampled_from([0, 0, 20, 120, 400]))
         case = {
             "sub": "senders",
             "variant": draw(st.sampled_from(["core", "core", "proto"])),
@@ -234,6 +234,9 @@ def case_strategy(tier):
         }
         if tier != "quick":
             case["trace_lines"] = draw(st.booleans())
+        if n == 0:
+            # context-bounded schedule: the running task continues except at up to four preemption points
+            case["preempt"] = draw(st.lists(st.tuples(st.integers(0, 700), st.integers(0, 4)).map(list), min_size=1, max_size=4))
         return case
     return build()
 
